@@ -17,7 +17,8 @@
 (*  edges   (KadGenEdges.cfg, VIEW) one shortest history per (state,        *)
 (*          operation) edge of the state graph modulo peer symmetry (C24).  *)
 EXTENDS Kad, TLC, Json, IOUtils
-VARIABLES hist, vec
+VARIABLES hist, vec,
+          ever     \* peers that have been protected at some time (generator bookkeeping for the edge VIEW)
 
 Env(k, d) == IF k \in DOMAIN IOEnv THEN IOEnv[k] ELSE d
 Depth   == atoi(Env("VERIF_DEPTH", "12"))
@@ -37,7 +38,7 @@ GPeers == CASE Univ = "depth" -> Grid(0..3, {0, 1, 2, 5, 9})
             [] OTHER          -> Grid(0..2, {0, 3, 5, 6, 12, 15}) \cup Grid({30, 31}, {2, 9, 10})
 GBoots == IF Univ = "adm" THEN {<<0, 15>>, <<1, 15>>} ELSE {<<1, 14>>}
 GRadii == IF Univ = "adm" THEN {0, 31} ELSE {0, 1, 2, 3, 30, 31}
-GProt  == IF Univ = "adm" THEN {{}, {<<0, 7>>, <<1, 3>>}} ELSE {{}}
+GProt  == IF Univ = "adm" THEN {{}, {<<0, 7>>, <<1, 3>>}, {<<1, 3>>}} ELSE {{}}
 \* query targets: addresses of peers (distance zero), neighbours inside a bin, a bin without peers, the deepest bins, self
 GTargets == {<<0, 3>>, <<0, 13>>, <<1, 4>>, <<2, 12>>, <<5, 0>>, <<30, 8>>, <<31, 10>>, <<SelfBin, 0>>}
 GTargetsN == {<<0, 13>>, <<1, 4>>, <<31, 10>>, <<SelfBin, 0>>}
@@ -84,12 +85,13 @@ GStep == \/ \E p \in Peers \ conn, f \in BOOLEAN : Connected(p, f)
          \/ (Univ = "cp" /\ \E b \in BOOLEAN \ {selfPub} : UpdateReachability(b))
          \/ (Univ = "adm" /\ \E p \in Peers \ conn : Pick(p))
 
-GInit == Init /\ hist = <<>> /\ vec = <<>>
+GInit == Init /\ hist = <<>> /\ vec = <<>> /\ ever = {}
 GNext == /\ Len(hist) < Depth
          /\ GStep
          /\ hist' = Append(hist, Op(res'))
+         /\ ever' = ever \cup prot'
          /\ UNCHANGED vec
-GSpec == GInit /\ [][GNext]_<<vars, hist, vec>>
+GSpec == GInit /\ [][GNext]_<<vars, hist, vec, ever>>
 
 Scn(ops) == PrintT(<<"SCN", ToJson([par |-> Par, ops |-> ops])>>)
 
@@ -143,11 +145,13 @@ EmitQuery == (Len(hist) = Depth /\ Cardinality(conn) <= 7 /\ res.op \in {"connec
 Cnt(S, b) == Cardinality(BinOf(S, b))
 UBins == {p[1] : p \in Peers}
 OpClass(r) == IF "p" \in DOMAIN r
-              THEN <<r.op, r.p[1], r.p \in conn, r.p \in known, r.p \in prot,
+              THEN <<r.op, r.p[1], r.p \in conn, r.p \in known, r.p \in prot, r.p \in ever,
                      IF "force" \in DOMAIN r THEN r.force ELSE FALSE>>
               ELSE <<r.op>>
 \* the class of the last operation is taken against the state it produced
-EdgeViewSym == <<[b \in UBins |-> <<Cnt(conn, b), Cnt(known \ conn, b), Cnt(prot \cap conn, b), Cnt(prot \ conn, b)>>],
+\* formerly protected peers are kept apart: a refresh must REPLACE the protected set
+EdgeViewSym == <<[b \in UBins |-> <<Cnt(conn, b), Cnt(known \ conn, b), Cnt(prot \cap conn, b), Cnt(prot \ conn, b),
+                                    Cnt((ever \ prot) \ conn, b)>>],
                  Cardinality(known \cap Boots), radius, prot = {}, OpClass(res)>>
 EmitAll == hist # <<>> => Scn(hist)
 \* edges from a populated topology: three peers in bin 1 and Prefill peers in bin 0 are connected first, so
@@ -157,12 +161,13 @@ PreSet  == IF Prefill = 0 THEN {} ELSE Grid({1}, 0..2) \cup Grid({0}, 0..(Prefil
 EInit == /\ conn = PreSet /\ known = PreSet /\ pub = {} /\ radius = MaxPO /\ prot = {}
          /\ selfPub = FALSE /\ stale = FALSE /\ res = [op |-> "init"]
          /\ depth = Recomputed(PreSet, {}, MaxPO)
-         /\ hist = MapSeq(Desc(PreSet), LAMBDA x : OConn(x, TRUE)) /\ vec = <<>>
+         /\ hist = MapSeq(Desc(PreSet), LAMBDA x : OConn(x, TRUE)) /\ vec = <<>> /\ ever = {}
 ENext == /\ Len(hist) < Depth + Cardinality(PreSet)
          /\ GStep
          /\ hist' = Append(hist, Op(res'))
+         /\ ever' = ever \cup prot'
          /\ UNCHANGED vec
-ESpec == EInit /\ [][ENext]_<<vars, hist, vec>>
+ESpec == EInit /\ [][ENext]_<<vars, hist, vec, ever>>
 
 (***************************************************************************)
 (* Vectors (C22, exhaustive): a class <<total, reachable>> per bin.        *)
@@ -174,9 +179,9 @@ VClasses == IF Env("VERIF_VCLASSES", "quick") = "quick"
 VRadii   == {1, MaxPO}
 VConn(v) == UNION {{<<b, i>> : i \in 0..(v[b][1] - 1)} : b \in DOMAIN v}
 VPub(v)  == UNION {{<<b, i>> : i \in 0..(v[b][2] - 1)} : b \in DOMAIN v}
-VInit == /\ Init /\ hist = <<>>
+VInit == /\ Init /\ hist = <<>> /\ ever = {}
          /\ vec \in [v : [VBins -> VClasses], rad : VRadii]
-VSpec == VInit /\ [][FALSE]_<<vars, hist, vec>>
+VSpec == VInit /\ [][FALSE]_<<vars, hist, vec, ever>>
 EmitVec == LET c == VConn(vec.v)  p == VPub(vec.v)
            IN Scn(ThreeOrders(c, p, vec.rad))
 
@@ -188,9 +193,9 @@ EmitVec == LET c == VConn(vec.v)  p == VPub(vec.v)
 (* DisconnectForce), each observed immediately and then re-connected.      *)
 (***************************************************************************)
 DClasses == {<<0,0>>, <<GQ,GQ>>, <<GQ+1,GQ>>, <<GQ+1,GQ+1>>, <<GQ+2,GQ+1>>}
-DInit == /\ Init /\ hist = <<>>
+DInit == /\ Init /\ hist = <<>> /\ ever = {}
          /\ vec \in [v : [VBins -> DClasses], rad : {MaxPO}]
-DSpec == DInit /\ [][FALSE]_<<vars, hist, vec>>
+DSpec == DInit /\ [][FALSE]_<<vars, hist, vec, ever>>
 MaxId(S) == CHOOSE x \in S : \A y \in S : y[2] <= x[2]
 Reps(c, p) == UNION {(IF BinOf(p, b) = {} THEN {} ELSE {MaxId(BinOf(p, b))})
                      \cup (IF BinOf(c \ p, b) = {} THEN {} ELSE {MaxId(BinOf(c \ p, b))}) : b \in VBins}
@@ -198,4 +203,20 @@ DiscOps(x) == <<[op |-> "disconnected", p |-> x], OConn(x, TRUE), [op |-> "force
 EmitDisc == LET c == VConn(vec.v)  p == VPub(vec.v)
             IN RefDepth(c, p, vec.rad, GQ) > 0
                  => Scn(BuildAsc(c, p, vec.rad) \o Flat(MapSeq(Asc(Reps(c, p)), DiscOps)))
+
+(***************************************************************************)
+(* Protection refreshes (C24, exhaustive): on a topology whose bin 0 is    *)
+(* over-saturated (PreSet), every pair of successive RefreshProtectPeer    *)
+(* sets (the second REPLACES the first: shrinking, emptying, growing),     *)
+(* with an admission probe of a peer after each refresh and finally its    *)
+(* inbound connection.                                                     *)
+(***************************************************************************)
+PProbes == {<<0, 7>>, <<0, 6>>, <<1, 3>>}
+PInit == /\ Init /\ hist = <<>> /\ ever = {}
+         /\ vec \in [s1 : ProtSets, s2 : ProtSets, p : PProbes, f : BOOLEAN]
+PSpec == PInit /\ [][FALSE]_<<vars, hist, vec, ever>>
+OProt(S) == [op |-> "protect", ps |-> SetToSeq(S)]
+OPick(x) == [op |-> "pick", p |-> x]
+EmitProt == Scn(MapSeq(Desc(PreSet), LAMBDA x : OConn(x, TRUE))
+                \o <<OProt(vec.s1), OPick(vec.p), OProt(vec.s2), OPick(vec.p), OConn(vec.p, vec.f)>>)
 =============================================================================
